@@ -183,7 +183,7 @@ fn report_failure(args: &Args, rep: &mut Report, ast: &OpeningHoursExpression, h
 }
 
 pub fn run(args: &Args, rep: &mut Report) {
-    let n = args.cases(50_000, 500_000);
+    let n = args.cases(400_000, 3_000_000);
     let mut st = Stats::default();
     for k in 0..n {
         let mut cfg = GenCfg::standard(args.thorough()).rotated(k);
